@@ -101,8 +101,8 @@ func NewCompW(e *Engine, secret string) *CompW {
 func (w *CompW) CatchAll() {
 	w.Router.NewRoute().HandlerFunc(func(s xmpp.Sender, p stanza.Packet) {
 		kind, id, typ := packetInfo(p)
-		w.Handled = append(w.Handled, Handled{Seq: len(w.e.Log), At: w.e.Now(), Kind: kind, ID: id, Type: typ, Task: w.e.current})
-		w.e.Logf("cb.handler", "%s id=%s type=%s", kind, id, typ)
+		w.Handled = append(w.Handled, Handled{Seq: len(w.e.Log), At: w.e.Now(), Kind: kind, ID: id, Type: typ, From: packetFrom(p), Task: w.e.current})
+		w.e.Logf("cb.handler", "%s id=%s type=%s from=%s", kind, id, typ, packetFrom(p))
 		for i := 0; i < w.Dawdle; i++ {
 			w.e.Yield("handler.dawdle")
 		}
